@@ -185,6 +185,20 @@ def main():
     else:
         missing.append('PARSER_UNICODE_ESCAPE_LENGTHS')
 
+    # NUMBER() option keys and the kind of value each accepts (types/number.rs FluentNumberOptions::merge)
+    nm = read(repo, 'fluent-bundle/src/types/number.rs')
+    mm = re.search(r'pub fn merge\(&mut self, opts: &FluentArgs\) \{(.*?)\n    \}\n', nm, re.S)
+    if mm:
+        skeys = re.findall(r'\("(\w+)", FluentValue::String\(', mm.group(1))
+        nkeys = re.findall(r'\("(\w+)", FluentValue::Number\(', mm.group(1))
+        if skeys and nkeys:
+            add('NUMBER_STRING_OPTION_KEYS', '[' + '; '.join(coq_bytes(k.encode()) for k in skeys) + ']', 'number.rs merge: keys taking a string')
+            add('NUMBER_NUMBER_OPTION_KEYS', '[' + '; '.join(coq_bytes(k.encode()) for k in nkeys) + ']', 'number.rs merge: keys taking a number')
+        else:
+            missing.append('NUMBER_OPTION_KEYS')
+    else:
+        missing.append('NUMBER_OPTION_KEYS')
+
     with open(out + '.tmp', 'w', encoding='utf-8') as f:
         f.write('(* Gen/Extracted.v — GENERATED by tools/extract_consts.py from the Rust sources of the repository under check; do not edit. *)\n')
         f.write('From Coq Require Import List NArith.\nImport ListNotations.\n\n')
